@@ -100,6 +100,7 @@ package parser
 //@   requires wfLex(l) && isTokType(ttype)
 //@   assigns l.pos, l.start, l.width, l.head, elems(l.tokens)
 //@   ensures wfLex(l) && l.pos >= old(l.pos)
+//@   ensures result && (ttype == token_string || ttype == token_number) ==> l.pos > old(l.pos)
 
 //@ func (l *lexer) acceptRun(ttype int, valid string) bool
 //@   mode int
@@ -114,18 +115,20 @@ package parser
 //@   property C14
 //@   requires wfLex(l)
 //@   assigns l.pos, l.start, l.width, l.head, elems(l.tokens)
-//@   loop 1 invariant wfLex(l) && l.pos >= old(l.pos)
+//@   loop 1 invariant wfLex(l) && l.pos > old(l.pos)
 //@   loop 1 decreases len(l.input) - l.pos
 //@   ensures wfLex(l) && l.pos >= old(l.pos)
+//@   ensures result ==> l.pos > old(l.pos)
 
 //@ func (l *lexer) acceptNumber(ttype int) bool
 //@   mode int
 //@   property C14
 //@   requires wfLex(l)
 //@   assigns l.pos, l.start, l.width, l.head, elems(l.tokens)
-//@   loop 1 invariant wfLex(l) && l.pos >= old(l.pos) && 0 <= i && i <= l.pos
+//@   loop 1 invariant wfLex(l) && l.pos >= old(l.pos) && 0 <= i && i <= l.pos && (accepted ==> l.pos > old(l.pos))
 //@   loop 1 decreases len(l.input) - l.pos
 //@   ensures wfLex(l) && l.pos >= old(l.pos)
+//@   ensures result ==> l.pos > old(l.pos)
 
 //@ func (l *lexer) acceptInteger(ttype int) bool
 //@   mode int
@@ -191,3 +194,26 @@ package parser
 //@ func trimQuotes(s string) string
 //@   mode int
 //@   property C14
+
+// the statement-level scanner: keeps the lexer invariant; its scan of an extension statement's arguments terminates
+//@ functype stateFunc(l *lexer) stateFunc
+//@   requires wfLex(l)
+//@   ensures wfLex(l)
+//@ func (l *lexer) error(msg string) stateFunc
+//@   mode int
+//@   property C14
+//@   requires wfLex(l)
+//@   ensures wfLex(l)
+//@ func (l *lexer) acceptEndOfStatement() stateFunc
+//@   mode int
+//@   property C14
+//@   requires wfLex(l)
+//@   ensures wfLex(l)
+//@ func lexBegin(l *lexer) stateFunc
+//@   mode int
+//@   property C14
+//@   requires wfLex(l)
+//@   loop * invariant wfLex(l)
+//@   loop 13 invariant wfLex(l)
+//@   loop 13 decreases len(l.input) - l.pos
+//@   ensures wfLex(l)
